@@ -410,7 +410,7 @@ func (f *Frame) enterLoop(li *LoopInfo, preds []*ssa.BasicBlock, conds []string)
 		}
 		before := e.hget(hdr, v)
 		e.hhavoc(hdr, v)
-		if framed && !frameExempt(v) {
+		if framed && f.framedVar(v) {
 			// the loop may change v only where the function's modifies clause allows
 			// (re-checked for the loop body at every back edge: frame.loop)
 			e.assert(f.frameCond(v, e.hget(hdr, v), before, allowed[v]))
@@ -754,6 +754,18 @@ func (f *Frame) lookupName(name string, li *LoopInfo, from *ssa.BasicBlock) (spe
 		}
 	} else {
 		at = f.curBlock
+	}
+	// parameters spilled to a local cell (address taken / fields selected): the cell holds the current value
+	if len(fn.Blocks) > 0 {
+		for _, ins := range fn.Blocks[0].Instrs {
+			if al, ok := ins.(*ssa.Alloc); ok && al.Comment == name {
+				if _, done := f.vals[al]; done {
+					if l := f.locOf(al); l != nil {
+						return specVal{loc: l, t: l.T}, true
+					}
+				}
+			}
+		}
 	}
 	for i, p := range fn.Params {
 		if p.Name() == name {
